@@ -6,10 +6,13 @@
 // window after every step (wrapping arithmetic = arithmetic modulo 2^64, lemma_roll), so a
 // pattern occurring at a position always meets its bucket entry; `find_at` therefore misses
 // nothing and reports the first position and, there, the first verifying entry of the bucket.
-// Hypothesis `rk_wf` (hash_2pow = 2^(hash_len-1) mod 2^64, every pattern filed under the hash of
-// its first hash_len bytes, bucket entries in priority order) is what `RabinKarp::new` — a
-// builder over `Arc<Patterns>` outside the Verus subset — establishes; it is exercised by the
-// bounded check `packed` on the real engine.  `Pattern::is_prefix` is by contract, discharged by
+// The invariant `rk_wf` (hash_2pow = 2^(hash_len-1) mod 2^64, every pattern filed under the hash of
+// its first hash_len bytes, bucket entries in priority order) is established by the real constructor
+// `RabinKarp::new`, under contract here as well (postcondition rk_wf): the power loop computes
+// 2^(hash_len-1) modulo 2^64, every pattern handed out by `Patterns::iter` (in priority order, by the
+// contract of `PatternIter::next`) is pushed into the bucket of the hash of its first hash_len bytes.
+// Hypothesis on the collection: `pats_ok` (the order is a permutation of the identifiers, every pattern
+// is at least `minimum_len` long).  `Pattern::is_prefix` is by contract, discharged by
 // Kani group pattern_raw (bounded).
 // VERUS-RLIMIT 80
 use vstd::prelude::*;
@@ -34,7 +37,43 @@ impl Patterns {
         ensures p.bytes == pat_bytes(*self, id), p.id == id
     { unimplemented!() }
 }
+// the smallest pattern length (`Patterns::minimum_len`) and the priority order (`Patterns::order`)
+uninterp spec fn pat_min(ps: Patterns) -> nat;
+uninterp spec fn pat_ord(ps: Patterns) -> Seq<PatternID>;
+spec fn pats_ok(ps: Patterns) -> bool {
+    &&& pat_ord(ps).len() == pat_count(ps)
+    &&& pat_min(ps) <= 0x7FFF_FFFF_FFFF_FFFF   // A-slice-len
+    &&& forall|i: int| 0 <= i < pat_count(ps) ==> (#[trigger] pat_ord(ps)[i]).0 < pat_count(ps) && prio(ps, pat_ord(ps)[i]) == i
+    &&& forall|id: PatternID| id.0 < pat_count(ps) ==> 0 <= #[trigger] prio(ps, id) < pat_count(ps) && pat_ord(ps)[prio(ps, id)] == id
+    &&& forall|id: PatternID| id.0 < pat_count(ps) ==> (#[trigger] pat_bytes(ps, id)).len() >= pat_min(ps)
+}
+// `PatternIter` (src/packed/pattern.rs): position `i` in the order of the collection `ps`
+struct PatternIter { ghost ps: Patterns, ghost i: nat }
+impl Patterns {
+    // len / minimum_len: the contracts unit u5_packed_builder proves of the real functions
+    #[verifier::external_body]
+    fn len(&self) -> (r: usize) ensures r == pat_count(*self) { unimplemented!() }
+    #[verifier::external_body]
+    fn minimum_len(&self) -> (r: usize) ensures r == pat_min(*self) { unimplemented!() }
+    // R-arc: `Arc::clone(patterns)` is the same collection
+    #[verifier::external_body]
+    fn arc_clone(&self) -> (r: Patterns) ensures r == *self { unimplemented!() }
+    #[verifier::external_body]
+    fn iter(&self) -> (it: PatternIter) ensures it.ps == *self, it.i == 0 { unimplemented!() }
+}
+impl PatternIter {
+    // assumed contract of `PatternIter::next`: the patterns in `order`, each with its identifier
+    #[verifier::external_body]
+    fn next(&mut self) -> (r: Option<(PatternID, Pattern)>)
+        ensures final(self).ps == old(self).ps,
+            old(self).i < pat_count(old(self).ps) ==> r is Some && r->Some_0.0 == pat_ord(old(self).ps)[old(self).i as int]
+                && r->Some_0.1.id == r->Some_0.0 && r->Some_0.1.bytes == pat_bytes(old(self).ps, r->Some_0.0) && final(self).i == old(self).i + 1,
+            old(self).i >= pat_count(old(self).ps) ==> r is None && final(self).i == old(self).i,
+    { unimplemented!() }
+}
 impl Pattern {
+    #[verifier::external_body]
+    fn bytes(&self) -> (r: &[u8]) ensures r@ == self.bytes { unimplemented!() }
     // contract = what Kani group pattern_raw proves of the real (raw-pointer) is_prefix
     #[verifier::external_body]
     fn is_prefix(&self, bytes: &[u8]) -> (r: bool)
@@ -107,6 +146,7 @@ proof fn lemma_poly_front(a: u8, t: Seq<u8>)
         vstd::arithmetic::power2::lemma2_to64();
         assert(p2(0) == 1);
         assert(poly(s) == a as int);
+        assert(a as int * p2(t.len()) == a as int) by (nonlinear_arith) requires p2(t.len()) == 1;
     } else {
         assert(s.drop_last() =~= seq![a] + t.drop_last());
         assert(s.last() == t.last());
@@ -179,7 +219,92 @@ proof fn lemma_shl1(a: usize)
     assert((a << 1usize) == ((2 * a) % 0x1_0000_0000_0000_0000) as usize) by (bit_vector);
 }
 
+// pattern `id` is filed under the hash of its first hash_len bytes (the second clause of rk_wf)
+spec fn filed(rk: &RabinKarp, id: PatternID) -> bool {
+    &&& pat_bytes(rk.patterns, id).len() >= rk.hash_len
+    &&& exists|j: int| 0 <= j < rk.buckets@[hs(pat_bytes(rk.patterns, id).subrange(0, rk.hash_len as int)) % 64]@.len()
+            && #[trigger] rk.buckets@[hs(pat_bytes(rk.patterns, id).subrange(0, rk.hash_len as int)) % 64]@[j]
+                == (hs(pat_bytes(rk.patterns, id).subrange(0, rk.hash_len as int)) as usize, id)
+}
+
+proof fn lemma_p2_step(h: usize, i: nat)
+    requires h as int == p2(i) % MODULUS
+    ensures (h.wrapping_shl(1)) as int == p2(i + 1) % MODULUS
+{
+    //@@ canary lemma_p2_step
+    lemma_shl1(h);
+    vstd::arithmetic::power2::lemma_pow2_unfold(i + 1);
+    vstd::arithmetic::div_mod::lemma_mul_mod_noop_right(2, p2(i), MODULUS);
+}
+
 impl RabinKarp {
+
+// R-assert: `assert!(E);` -> `{ let a__ = E; assert(a__); }` (the runtime assertion becomes a proof
+// obligation: the documented panics "collection empty / a pattern empty" are the preconditions);
+// R-wildFor: `for _ in 1..hash_len {` -> `for i__ in it: 1..hash_len {`; R-arc: `Arc::clone(patterns)` ->
+// `patterns.arc_clone()`; R-forIter (Rust's own desugaring of `for`): `for (id, pat) in patterns.iter() {`
+// -> `let mut it__ = patterns.iter(); loop { let (id, pat) = match it__.next() { Some(x) => x, None => break };`
+//@@ fn src/packed/rabinkarp.rs | pub(crate) fn new(patterns: &Arc<Patterns>) -> RabinKarp | res=rk
+//@@ sigsub 1 /pub\(crate\) fn/ => fn
+//@@ sigsub 1 /&Arc<Patterns>/ => &Patterns
+//@@ sub 2 /assert!\(([^;]+)\);/ => { let a__ = \1; assert(a__); }
+//@@ sub 1 /for _ in ([\w.]+)\.\.(=?[\w.]+) \{/ => for i__ in it: \1..\2 {
+//@@ sub 1 /Arc::clone\(patterns\)/ => patterns.arc_clone()
+//@@ sub 1 /for \(id, pat\) in patterns\.iter\(\) \{/ => let mut it__ = patterns.iter(); loop { let (id, pat) = match it__.next() { Some(x) => x, None => break };
+//@@ header
+        requires pats_ok(*patterns), pat_count(*patterns) >= 1, pat_min(*patterns) >= 1,
+        ensures rk_wf(&rk), rk.patterns == *patterns, rk.hash_len == pat_min(*patterns),
+//@@ before /for i__ in/
+        proof { vstd::arithmetic::power2::lemma2_to64(); }
+//@@ loop 1
+            invariant hash_2pow as int == p2((i__ - 1) as nat) % MODULUS, 1 <= i__,
+//@@ before /hash_2pow = hash_2pow\./
+            proof { lemma_p2_step(hash_2pow, (i__ - 1) as nat); }
+//@@ loop 2
+            invariant
+                pats_ok(*patterns), it__.ps == *patterns, it__.i <= pat_count(*patterns),
+                rk.patterns == *patterns, rk.hash_len == hash_len, rk.hash_2pow == hash_2pow,
+                hash_len == pat_min(*patterns), hash_len >= 1,
+                hash_2pow as int == p2((hash_len - 1) as nat) % MODULUS,
+                rk.buckets@.len() == 64,
+                forall|k: int| 0 <= k < it__.i ==> filed(&rk, #[trigger] pat_ord(*patterns)[k]),
+                forall|b: int, j: int| 0 <= b < 64 && 0 <= j < rk.buckets@[b]@.len() ==> {
+                    &&& (#[trigger] rk.buckets@[b]@[j]).1.0 < pat_count(*patterns)
+                    &&& prio(*patterns, rk.buckets@[b]@[j].1) < it__.i },
+                forall|b: int, i: int, j: int| 0 <= b < 64 && 0 <= i < j < rk.buckets@[b]@.len()
+                    ==> prio(rk.patterns, (#[trigger] rk.buckets@[b]@[i]).1) < prio(rk.patterns, (#[trigger] rk.buckets@[b]@[j]).1),
+            ensures it__.i >= pat_count(*patterns),
+            decreases pat_count(*patterns) - it__.i,
+//@@ before /rk\.buckets\[\w+\]\.\w+\(/
+            let ghost old_rk = rk;
+//@@ after /rk\.buckets\[\w+\]\.\w+\([^;]*;/
+            proof {
+                let k0 = (it__.i - 1) as int;
+                assert(id == pat_ord(*patterns)[k0]);
+                assert(rk.buckets@[bucket as int]@[old_rk.buckets@[bucket as int]@.len() as int] == (hash, id));
+                assert forall|k: int| 0 <= k < it__.i implies filed(&rk, #[trigger] pat_ord(*patterns)[k]) by {
+                    if k < k0 {
+                        assert(filed(&old_rk, pat_ord(*patterns)[k]));
+                        let idk = pat_ord(*patterns)[k];
+                        let hh = hs(pat_bytes(rk.patterns, idk).subrange(0, rk.hash_len as int));
+                        let j = choose|j: int| 0 <= j < old_rk.buckets@[hh % 64]@.len() && #[trigger] old_rk.buckets@[hh % 64]@[j] == (hh as usize, idk);
+                        assert(rk.buckets@[hh % 64]@[j] == (hh as usize, idk));
+                    }
+                }
+            }
+//@@ before /rk\s*\}\s*$/
+        proof {
+            assert forall|id: PatternID| id.0 < pat_count(rk.patterns) implies filed(&rk, id) by {
+                assert(pat_ord(*patterns)[prio(*patterns, id)] == id);
+            }
+            assert forall|id: PatternID| id.0 < pat_count(rk.patterns) implies {
+                &&& (#[trigger] pat_bytes(rk.patterns, id)).len() >= rk.hash_len
+                &&& exists|j: int| 0 <= j < rk.buckets@[hs(pat_bytes(rk.patterns, id).subrange(0, rk.hash_len as int)) % 64]@.len()
+                    && #[trigger] rk.buckets@[hs(pat_bytes(rk.patterns, id).subrange(0, rk.hash_len as int)) % 64]@[j]
+                        == (hs(pat_bytes(rk.patterns, id).subrange(0, rk.hash_len as int)) as usize, id)
+            } by { assert(filed(&rk, id)); }
+        }
+//@@ end
 
 // R-assertEq: `assert_eq!(a, b);` -> `assert(a == b);`; R-refFor: `for &b in bytes {` ->
 // `for b__ref in it: bytes.iter() { let b = *b__ref;`
